@@ -227,7 +227,9 @@ Lemma gri_xy sp c ri v : gen_routing_info sp c = Ok ri -> ri_xy ri = Some v -> g
 Proof.
   unfold gen_routing_info. destruct (Z.of_nat (length (c_nis c)) =? 0); [discriminate|].
   intros H. inv_bind H. inversion H; subst; cbn. intros ->.
-  destruct (d_algo (c_desc c)); try discriminate. inv_bind E. inversion E; subst. exact E3.
+  destruct (d_algo (c_desc c)); try discriminate.
+  match goal with E : bind (gen_xy c) _ = Ok (Some _) |- _ => inv_bind E; inversion E; subst end.
+  match goal with E : gen_xy c = Ok _ |- _ => exact E end.
 Qed.
 
 (* ------------------------------------------------------------------ C07, XY part: coordinates distinct *)
